@@ -10,7 +10,9 @@ OPS = ("::insert", "::get", "::get_mut", "::remove", "::clear", "::len")
 def run(ctx):
     fx = ctx.facts("default")
     fixtures.run(ctx, ['variant'])
-    sentinel.run(ctx, fx, FILE, "hash_map::zipora_hash_map::HashEntry::hash")
+    sents, _ = sentinel.run(ctx, fx, FILE, "hash_map::zipora_hash_map::HashEntry::hash")
+    sentinel.completeness(ctx, fx, FILE, "hash_map::zipora_hash_map::HashEntry::hash", sents)
+    ctx.floor("R-TAINT-S.complete.enumerators", 1)
     ctx.floor("R-TAINT-S.sources", 4)
     ctx.floor("R-TAINT-S.sinks", 5)
     ctx.floor("R-TAINT-S.sentinels", 2)
@@ -18,6 +20,10 @@ def run(ctx):
                 only=lambda fid: any(fid.endswith(o) for o in OPS) and "ZiporaHashMap::<K, V, S>::" in fid)
     ctx.floor("R-VARIANT.operations", 6)
     ctx.floor("R-VARIANT.arms", 24)
+    # SmallMap: every operation handles both the inline and the promoted representation
+    variant.run(ctx, fx, "src/containers/specialized/small_map.rs", "containers::specialized::small_map::SmallMapStorage",
+                "SmallMap::storage", rule="R-VARIANT.smallmap", panic_only=True)
+    ctx.floor("R-VARIANT.smallmap.operations", 5)
     return dict(
         level_note="decides two structural clauses of C06 (sentinel sanitisation of caller-supplied hashes; per-strategy "
                    "routing). Probe sequences, tombstone reuse, resize and iteration completeness are value-level and NOT decided.",
